@@ -128,15 +128,7 @@ func serialCall(inst instance, o OpCall, at int64) (res, pan string) {
 }
 
 //go:norace
-func snapshotRecs(recs [][]callRec) []callRec {
-	var out []callRec
-	for _, r := range recs {
-		for _, c := range r {
-			out = append(out, c)
-		}
-	}
-	return out
-}
+func snapshotRecs(recs [][]callRec) []callRec { return snapFlatten(recs) }
 
 func safeCall(inst instance, o OpCall) (res, pan, stack string) {
 	defer func() {
